@@ -1041,31 +1041,4 @@ example :
 /-- the real limits satisfy the hypotheses on `lim` used above -/
 example : 2 ≤ Gen.outcomeSurfacedProposalsRoundHistoryLimit := by decide
 
-/-! ### tie to the source: decision expressions regenerated by the extractor (`Gen.Src`) -/
-
-/-- the model's scan step tests quorum with exactly the condition of the `if` in `getLatestQuorumBlock` -/
-theorem quorumStep_matches_source (thr : Nat) (votes : BlockKey → Nat) (m b : BlockKey) :
-    quorumStep thr votes m b =
-      if b.hash == zeroHash then m
-      else if Gen.Src.blockHasQuorum (votes b) thr && better b m then b else m := rfl
-
-private theorem take_if_over {α} (l : List α) (n : Nat) :
-    (if l.length > n then l.take n else l) = l.take n := by
-  split
-  · rfl
-  · rename_i h
-    exact (List.take_of_length_le (by omega)).symm
-
-/-- dropping the oldest round and capping the new round happen under the source's conditions -/
-theorem surfacedOf_matches_source (ctx : Ctx) (lim : Limits) (agreed : List CheckResult) (prev : List (List Proposal))
-    (os : List Observation) (π : List BlockKey) (b : BlockKey)
-    (hb : latestQuorumBlock (ctx.F + 1) (blockVotes os) π = some b) :
-    surfacedOf ctx lim agreed prev os π =
-      (let carried := carryOver agreed prev
-       let hist := if Gen.Src.historyFull carried.length lim.roundHistory then carried.take (lim.roundHistory - 1) else carried
-       let cand := sortByKey ctx.key (·.workID) (newRound agreed hist b (os.flatMap (·.proposals)) [])
-       (if Gen.Src.roundOverLimit cand.length lim.perRound then cand.take lim.perRound else cand) :: hist) := by
-  simp only [surfacedOf, hb, Gen.Src.historyFull, Gen.Src.roundOverLimit, decide_eq_true_eq]
-  rw [take_if_over]
-
 end AutoVerif.C05
